@@ -57,3 +57,39 @@ func TestModelModern(t *testing.T) {
 	pr("events", kinds)
 	pr("unspec", unspec)
 }
+
+func TestModelTimeline(t *testing.T) {
+	flags := map[string]int{}
+	kinds := map[string]int{}
+	unspec := map[string]int{}
+	rapid.Check(t, func(rt *rapid.T) {
+		cfg := DefaultCfg()
+		cfg.PGraded = 85
+		sc := GenTimelineScenario(rt, cfg)
+		dir, done := caseDir()
+		defer done()
+		res, _, err := Conform(sc, dir+"/db", ConformOpts{})
+		if err != nil {
+			rt.Fatalf("open: %v", err)
+		}
+		for k, v := range res.Flags {
+			flags[k] += v
+		}
+		for k, v := range res.EventKinds {
+			kinds[k] += v
+		}
+		for k, v := range res.Unspec {
+			unspec[k] += v
+		}
+		for _, m := range res.Mismatches {
+			rt.Logf("MISMATCH %v", m)
+		}
+		if len(res.Mismatches) > 0 {
+			SaveCase("DEV", sc)
+			rt.Fatalf("%d mismatches; sync=%v era=%+v unspec=%v", len(res.Mismatches), res.Sync, sc.Era, res.Unspec)
+		}
+	})
+	t.Logf("flags=%v", flags)
+	t.Logf("events=%v", kinds)
+	t.Logf("unspec=%v", unspec)
+}
